@@ -180,7 +180,7 @@ func (g *exprGen) scalarLit() *ref.E {
 }
 
 func kindOf(ctx []*model.Value) model.Kind {
-	if len(ctx) == 0 {
+	if len(ctx) == 0 || ctx[0] == nil {
 		return model.Null
 	}
 	return ctx[0].K
